@@ -19,12 +19,16 @@ DeclRules == {"R12method", "R12requires", "R12requires-stacked", "R12method-seco
 Blocks == {"if", "elif", "else", "while", "for", "case", "arrow"}
 Hosts == {"fn", "method-model", "method-class"}
 DeclHosts == {"model", "class"}
+\* what stands immediately BEFORE the offending statement in the same block: the static rules are per construct, so nothing that
+\* precedes a construct may switch its rule off (a checker keeps per-function state - the expected error type of `?`, the
+\* set of mutable bindings, the loop flag - and every one of these statement forms touches some of it)
+Pres == {"none", "closure", "listcomp", "dictcomp", "match-stmt", "for-loop", "try-ok", "nested-call", "if-else"}
 CONSTANT MaxNest
-VARIABLES rule, host, kinds
-Init == \/ rule \in StmtRules /\ host \in Hosts /\ kinds = <<>>
-        \/ rule \in DeclRules /\ host \in DeclHosts /\ kinds = <<>>
-Next == rule \in StmtRules /\ Len(kinds) < MaxNest /\ \E b \in Blocks : kinds' = Append(kinds, b) /\ UNCHANGED <<rule, host>>
+VARIABLES rule, host, kinds, pre
+Init == \/ rule \in StmtRules /\ host \in Hosts /\ kinds = <<>> /\ pre \in Pres
+        \/ rule \in DeclRules /\ host \in DeclHosts /\ kinds = <<>> /\ pre = "none"
+Next == rule \in StmtRules /\ Len(kinds) < MaxNest /\ \E b \in Blocks : kinds' = Append(kinds, b) /\ UNCHANGED <<rule, host, pre>>
 \* the table: a `bad` variant is ill-typed whatever the context, a `good` variant well-typed
 Verdict(variant) == variant = "good"
-Emit == PrintT(<<"CASE", ToJson([rule |-> rule, host |-> host, kinds |-> kinds, bad_accept |-> Verdict("bad"), good_accept |-> Verdict("good")])>>)
+Emit == PrintT(<<"CASE", ToJson([rule |-> rule, host |-> host, kinds |-> kinds, pre |-> pre, bad_accept |-> Verdict("bad"), good_accept |-> Verdict("good")])>>)
 =============================================================================
